@@ -29,6 +29,10 @@ func (f *FileReaderImpl) CollectPythonFiles(paths []string, recursive bool, incl
 		key := file
 		if abs, err := filepath.Abs(file); err == nil {
 			key = abs
+			// the same file reached through a symbolic link (a linked directory given next to the real one)
+			if realPath, err := filepath.EvalSymlinks(abs); err == nil {
+				key = realPath
+			}
 		}
 		if !seen[key] {
 			seen[key] = true
